@@ -1,5 +1,5 @@
 (** * Which parts of the world each public operation can touch. *)
-From Arche Require Import Model.Base Model.Pool Model.Filter Model.World Model.Ops Proofs.Frame.
+From Arche Require Import Model.Base Model.Pool Model.Filter Model.World Model.Ops Proofs.Frame Proofs.Atomic Proofs.GhostBase.
 
 (** Registry, resources, listener and configuration: everything except locks, queries
     and the filter-id counter. *)
@@ -228,7 +228,7 @@ Proof.
   apply frame_rr_of, frame_cleanup_table.
 Qed.
 
-Theorem step_frame_rr w o : touches_rr o = false -> frame_rr w (res_world (step w o)).
+Lemma step_frame_rr0 w o : touches_rr o = false -> frame_rr w (res_world (step0 w o)).
 Proof.
   intros Ht. destruct o; try discriminate Ht; simpl.
   - apply frame_rr_of, frame_op_new.
@@ -328,4 +328,10 @@ Proof.
   - destruct (w_res w !! id); apply frame_rr_refl.
   - apply frame_rr_refl.
   - apply frame_rr_refl.
+Qed.
+
+Theorem step_frame_rr w o : touches_rr o = false -> frame_rr w (res_world (step w o)).
+Proof.
+  intros Ht. destruct (step_cases w o) as [[-> _]|[_ ->]]; [by apply step_frame_rr0|].
+  simpl. apply frame_rr_of, frame_ghost_of.
 Qed.
